@@ -567,7 +567,8 @@ func (mru *memRepoUpload) Close() error {
 	mru.mu.Lock()
 	defer mru.mu.Unlock()
 	if mru.expect != "" && mru.d.Digest() != mru.expect {
-		return fmt.Errorf("digest mismatch, expected %s, received %s", mru.expect, mru.d.Digest())
+		return errors.Join(fmt.Errorf("digest mismatch, expected %s, received %s", mru.expect, mru.d.Digest()),
+			mru.mr.uploads.Delete(mru.sessionID))
 	}
 	// relocate []byte to in memory blob store
 	mru.mr.mu.Lock()
